@@ -75,9 +75,22 @@ class NumpyStub:
         d["errstate"] = Builtin("np.errstate", lambda **k: _NullCM())
 
     def _logged(self, name, f):
+        def has_tarr(x, depth=0):
+            if isinstance(x, TArr):
+                return True
+            if depth < 2 and isinstance(x, (list, tuple)):
+                return any(has_tarr(y, depth + 1) for y in x)
+            return False
+
         def g(*a, **k):
             self.I.stub_log.add("np." + name)
-            return f(*a, **k)
+            try:
+                return f(*a, **k)
+            except (AttributeError, TypeError, IndexError) as e:
+                # a stub written for arrays of concrete extent that was handed an array of symbolic extent: outside the subset
+                if any(has_tarr(x) for x in a) or any(has_tarr(x) for x in k.values()):
+                    raise Untranslatable(f"np.{name} on an array of symbolic extent ({type(e).__name__}: {e})")
+                raise
         return g
 
     def __repr__(self):
